@@ -9,6 +9,9 @@
 //   submit <id>
 //   cancel jobs=<n>          (cancelAllJobs when the n-th job body has started)
 //   nowait                   (destroy the queue right after the submits: the destructor must drain it)
+//   cancel usec=<n>          (cancelAllJobs from a thread of its own, n microseconds after the submits)
+//   job ... bigenv=<k>       (k extra environment entries: forming the environment takes a while, which widens
+//                             the window between the queue's cancelled check and the actual spawn)
 //   end
 #include "llbuild/Basic/ExecutionQueue.h"
 #include "llbuild/Basic/Subprocess.h"
@@ -66,8 +69,8 @@ static std::string opt(const std::vector<std::string>& t, const std::string& nam
 
 struct JobSpec : JobDescriptor {
   std::string id, proc, exe, wd;
-  bool high = false, inherit = true, control = true, interrupt = true;
-  int dur = 0, fds = -1;
+  bool high = false, inherit = true, control = true, interrupt = true, console = false;
+  int dur = 0, fds = -1, bigenv = 0;
   std::vector<std::string> adds;
   std::vector<std::pair<std::string, std::string>> env;
   StringRef getOrdinalName() const override { return id; }
@@ -80,6 +83,7 @@ static ExecutionQueue* gQueue = nullptr;
 static std::atomic<int> gStarted{0}, gLaunches{0}, gCompletions{0}, gBodiesDone{0}, gSubmitted{0};
 static int gCancelAt = -1;
 static bool gNoWait = false;
+static int gCancelUsec = -1;
 static std::mutex gDoneMutex;
 static std::condition_variable gDoneCv;
 static std::string gChild;
@@ -130,9 +134,14 @@ static void body(JobSpec* j, QueueJobContext* ctx) {
     std::vector<StringRef> argv(args.begin(), args.end());
     std::vector<std::pair<StringRef, StringRef>> env;
     for (auto& e : j->env) env.push_back({e.first, e.second});
+    std::vector<std::string> bigKeys;
+    bigKeys.reserve(j->bigenv);
+    for (int i = 0; i < j->bigenv; ++i) bigKeys.push_back("VERIF_BIG_" + std::to_string(i));
+    for (auto& k : bigKeys) env.push_back({k, "x"});
     ProcessAttributes attr{j->interrupt};
     attr.inheritEnvironment = j->inherit;
     attr.controlEnabled = j->control;
+    attr.connectToConsole = j->console;
     if (j->wd != "-") attr.workingDir = j->wd;
     std::string id = j->id;
     std::vector<int> hog;
@@ -191,7 +200,9 @@ int main(int argc, char** argv) {
       j->inherit = opt(t, "inherit", "1") == "1";
       j->control = opt(t, "control", "1") == "1";
       j->interrupt = opt(t, "interrupt", "1") == "1";
+      j->console = opt(t, "console", "0") == "1";   // connectToConsole (the child must then print nothing)
       j->fds = atoi(opt(t, "fds", "-1").c_str());
+      j->bigenv = atoi(opt(t, "bigenv", "0").c_str());
       if (j->fds >= 0) {
         struct rlimit rl;
         getrlimit(RLIMIT_NOFILE, &rl);
@@ -208,6 +219,7 @@ int main(int argc, char** argv) {
       submits.push_back(t[1]);
     } else if (t[0] == "cancel") {
       gCancelAt = atoi(opt(t, "jobs", "-1").c_str());
+      gCancelUsec = atoi(opt(t, "usec", "-1").c_str());
     } else if (t[0] == "nowait") {
       gNoWait = true;
     } else if (t[0] == "end") {
@@ -225,6 +237,15 @@ int main(int argc, char** argv) {
     out("queue-created kind=" + kind + " lanes=" + std::to_string(lanes));
     for (auto& s : submits)
       if (gJobs.count(s)) submit(gJobs[s]);
+    std::thread canceller;
+    if (gCancelUsec >= 0) {
+      canceller = std::thread([] {
+        std::this_thread::sleep_for(std::chrono::microseconds(gCancelUsec));
+        out("cancel-issued");
+        gQueue->cancelAllJobs();
+        out("cancel-returned");
+      });
+    }
     // like the build engine, wait for every submitted body and every launched process
     if (!gNoWait) {
       std::unique_lock<std::mutex> l(gDoneMutex);
@@ -232,6 +253,7 @@ int main(int argc, char** argv) {
     }
     out(std::string(gNoWait ? "not-waiting" : "all-reported") + " bodies=" + std::to_string(gBodiesDone.load()) + " launches=" + std::to_string(gLaunches.load()) +
         " completions=" + std::to_string(gCompletions.load()));
+    if (canceller.joinable()) canceller.join();
     out("destroying");
   }
   gQueue = nullptr;
